@@ -145,3 +145,27 @@ def model_check(cfg, module, workers=16, timeout=3600, extra=(), heap='8g', soft
         return ok, st, out
     finally:
         shutil.rmtree(workdir, ignore_errors=True)
+
+
+def apalache_inductive(module='FBSlotApa.tla', init='Init', indinv='IndInv', goal='SlotsDistinct', timeout=600):
+    """Discharge an inductive invariant with Apalache: Init => IndInv, IndInv /\\ Next => IndInv', IndInv => goal.
+    Returns (ok, details)."""
+    work = tempfile.mkdtemp(prefix='fbv_apa_', dir=scratch_root())
+    details = []
+    ok = True
+    try:
+        shutil.copy(os.path.join(SPEC_DIR, module), work)
+        for tag, args in (('base', ['--init=' + init, '--inv=' + indinv, '--length=0']),
+                          ('step', ['--init=' + indinv, '--inv=' + indinv, '--length=1']),
+                          ('goal', ['--init=' + indinv, '--inv=' + goal, '--length=0'])):
+            t0 = time.time()
+            p = subprocess.run(['apalache-mc', 'check'] + args + ['--out-dir=' + os.path.join(work, 'o_' + tag), module],
+                               cwd=work, stdout=subprocess.PIPE, stderr=subprocess.STDOUT, text=True, timeout=timeout)
+            good = 'EXITCODE: OK' in p.stdout and 'NoError' in p.stdout
+            details.append({'obligation': tag, 'ok': good, 'wall_s': round(time.time() - t0, 1)})
+            if not good:
+                ok = False
+                details[-1]['tail'] = p.stdout[-800:]
+        return ok, details
+    finally:
+        shutil.rmtree(work, ignore_errors=True)
